@@ -36,6 +36,10 @@ func verifC05(ncols int) {
 			changes = append(changes, &schema.AddColumn{C: c})
 		case 2:
 			old := schema.NewIntColumn(name, "integer")
+			old.Type.Null = verifBool(fmt.Sprintf("oldnull%d", i))
+			if verifChoice(fmt.Sprintf("olddefault%d", i), 2) == 1 {
+				old.SetDefault(&schema.Literal{V: "3"})
+			}
 			kind := schema.ChangeKind(verifInt(fmt.Sprintf("change%d", i), 1, 255))
 			changes = append(changes, &schema.ModifyColumn{From: old, To: c, Change: kind})
 		case 3:
